@@ -438,6 +438,12 @@ impl Search {
 
             self.board.unmake_move();
 
+            // The search was cut short somewhere below this node: the score is meaningless,
+            // so don't cut off on it and don't store anything computed from it
+            if !self.is_running() || self.limits_exceeded(start) {
+                return 0;
+            }
+
             // Move is too good, opponent will not allow the game to reach this position
             if score >= beta {
                 TRANSPOSITION_TABLE
